@@ -54,6 +54,10 @@ CHECKS['C05'] = dict(tech='Hypothesis register netlists and library designs with
              text='For generated register netlists (chains, swaps, rings, feedback through logic, several clock domains) and library designs (UART loop, Reg2Axi->Axi2Reg, synchronous memory with register paths) the full state trace (all wires + leaf attributes) must be identical for the reference order, its reversal and random permutations of sim.clockDrivers[drv].clockables; netlists are also compared with an independent two-phase evaluator; Wire.prepared must be empty after every clk; clk(n) must equal n single calls including total_clks. Exploration (sampled).',
              note='Trusted: pbt/netgen.py reference evaluator; permutation through the public clockables list of a held simulator.',
              ref='DESIGN.md 2/C05')
+CHECKS['C10'] = dict(tech='Hypothesis register netlists with gated clock drivers placed in nested wrapper groups, independent per-domain reference evaluator, tied-enable metamorphic relation',
+             text='Netlists partitioned into nested wrappers, some carrying ClockDriver(base, enable) with enables from an input, from logic or from a register inside the gated domain, are simulated over enable patterns (gaps, pulses, always-on) and every wire is compared each cycle with a reference that holds gated registers when the pre-edge enable is 0 and resolves the nearest ancestor driver on the description; with all enables tied to 1 the run must equal the ungated design. Exploration (sampled).',
+             note='Trusted: pbt/netgen.py (builder, reference evaluator, domain resolution).',
+             ref='DESIGN.md 2/C10')
 NOT_APPLICABLE = {}
 
 def main():
